@@ -10,10 +10,11 @@ open W2c2Verif Model Gen Spec
 
 theorem vtOf_zeroVal (t : VT) : vtOf (zeroVal t) = t := by cases t <;> rfl
 
-theorem locTyped_init (ctx : Ctx) (params locals : List VT) (args : List Val) (hargs : args.map vtOf = params) :
-    LocTyped { ctx with localTypes := params ++ locals } (initLocals locals args) := by
+theorem locTyped_init (ctx : Ctx) (params locals : List VT) (args : List Val) (g : GS) (hargs : args.map vtOf = params)
+    (hg : GTyped ctx g) :
+    LocTyped { ctx with localTypes := params ++ locals } (initLocals locals args g) := by
   have hlen : args.length = params.length := by rw [← hargs]; simp
-  refine ⟨by simp [initLocals, hlen], fun k h h' => ?_⟩
+  refine ⟨by simp [initLocals, hlen], fun k h h' => ?_, hg⟩
   simp only [initLocals] at h ⊢
   by_cases hk : k < args.length
   · have e1 : (args ++ locals.map zeroVal)[k] = args[k] := List.getElem_append_left hk
@@ -40,13 +41,13 @@ theorem wf_s0Func (result : Option VT) : WF (s0Func result) := by
   · intro lab hm; simp [s0Func] at hm; subst hm; simp
   · intro lab hm; simp [s0Func] at hm; subst hm; simp [s0Func]
 
-theorem func_sim (ns : NumSem) (hns : NumOK ns) (ctx : Ctx) (params locals : List VT) (result : Option VT) (body : List EInstr)
-    (cf : Model.CFunc) (args : List Val) (fuel : Nat)
+theorem func_sim (ns : NumSem) (hns : NumOK ns) (hmo : MemOK ns) (ctx : Ctx) (params locals : List VT) (result : Option VT) (body : List EInstr)
+    (cf : Model.CFunc) (args : List Val) (g : GS) (fuel : Nat)
     (hco : CallOK ns { ctx with localTypes := params ++ locals })
-    (hc : compileFunc ctx params locals result body = .ok cf) (hargs : args.map vtOf = params) :
-    match runFuncSrc ns fuel locals result body args with
-    | .value v => runFuncTgt ns fuel cf args = .value v
-    | .trap t => runFuncTgt ns fuel cf args = .trap t
+    (hc : compileFunc ctx params locals result body = .ok cf) (hargs : args.map vtOf = params) (hg : GTyped ctx g) :
+    match runFuncSrc ns fuel locals result body args g with
+    | .value v g' => runFuncTgt ns fuel cf args g = .value v g' ∧ GTyped ctx g'
+    | .trap t => runFuncTgt ns fuel cf args g = .trap t
     | _ => True := by
   unfold compileFunc at hc
   simp only [bind, Except.bind] at hc
@@ -60,9 +61,9 @@ theorem func_sim (ns : NumSem) (hns : NumOK ns) (ctx : Ctx) (params locals : Lis
     · rename_i hchk
       have hfin := check_of_not hchk
       have hw0 := wf_s0Func result
-      have hlt := locTyped_init ctx params locals args hargs
-      have hsim := (sim_all ns hns { ctx with localTypes := params ++ locals } hco fuel).1 body (s0Func result) s1 out dead [] (initLocals locals args)
-        (initMSt locals args) hcb hw0 (Rel.nil _) rfl hlt
+      have hlt := locTyped_init ctx params locals args g hargs hg
+      have hsim := (sim_all ns hns hmo { ctx with localTypes := params ++ locals } hco fuel).1 body (s0Func result) s1 out dead [] (initLocals locals args g)
+        (initMSt locals args g) hcb hw0 (Rel.nil _) rfl hlt
       -- the emitted function
       have hcf : cf.localTypes = locals ∧ cf.body = out ∧ cf.result = result ∧
           (∀ rt, result = some rt → 1 ≤ s1.declLen → cf.returnsSlot = true) := by
@@ -81,23 +82,24 @@ theorem func_sim (ns : NumSem) (hns : NumOK ns) (ctx : Ctx) (params locals : Lis
       unfold runFuncSrc runFuncTgt
       rw [e1, e2]
       -- a value carried to the function label
-      have hjump : ∀ (stkB locB : List Val) (σ' : MSt),
-          JumpOK ⟨0, 0, result⟩ (s0Func result).base [] stkB locB (initMSt locals args) σ' → (result.isSome → 1 ≤ s1.declLen) →
-          (match (match result with | none => FRes.value none | some _ => (match stkB.getLast? with | some v => FRes.value (some v) | none => .stuck)) with
-            | .value v => tgtFinish cf (.jump 0 σ') = .value v
+      have hjump : ∀ (stkB : List Val) (locB : Store) (σ' : MSt), LocTyped { ctx with localTypes := params ++ locals } locB →
+          JumpOK ⟨0, 0, result⟩ (s0Func result).base [] stkB locB (initMSt locals args g) σ' → (result.isSome → 1 ≤ s1.declLen) →
+          (match (match result with | none => FRes.value none locB.g | some _ => (match stkB.getLast? with | some v => FRes.value (some v) locB.g | none => .stuck)) with
+            | .value v g' => tgtFinish cf (.jump 0 σ') = .value v g' ∧ GTyped ctx g'
             | .trap t => tgtFinish cf (.jump 0 σ') = .trap t
             | _ => True) := by
-        intro stkB locB σ' hj hd
+        intro stkB locB σ' hltB hj hd
         obtain ⟨j1, j2, j3, j4, j5⟩ := hj
+        have hgB : GTyped ctx locB.g := hltB.glob
         cases result with
-        | none => simp only [tgtFinish, e3]
+        | none => simp only [tgtFinish, e3, j1]; exact ⟨trivial, hgB⟩
         | some rt =>
           obtain ⟨v, hv1, hv2⟩ := j5 rt rfl
           simp only [hv1]
           have hret := e4 rt rfl (hd rfl)
-          simp only [tgtFinish, e3, hret, if_true]
-          exact congrArg (fun x => FRes.value (some x)) hv2
-      cases hres : erunSeq ns fuel body [] (initLocals locals args) with
+          simp only [tgtFinish, e3, hret, if_true, j1]
+          exact ⟨congrArg (fun x => FRes.value (some x) locB.g) hv2, hgB⟩
+      cases hres : erunSeq ns fuel body [] (initLocals locals args g) with
       | oof => trivial
       | stuck => trivial
       | trap t =>
@@ -109,8 +111,9 @@ theorem func_sim (ns : NumSem) (hns : NumOK ns) (ctx : Ctx) (params locals : Lis
         obtain ⟨h1, h2, h3, h4, h5, σ', h6, h7, h8, h9, h10⟩ := hsim
         have hst := hfin h1
         rw [h6]
+        have hgB : GTyped ctx loc'.g := h5.glob
         cases result with
-        | none => simp only [srcFinish, tgtFinish, e3]
+        | none => simp only [srcFinish, tgtFinish, e3, h8]; exact ⟨trivial, hgB⟩
         | some rt =>
           simp only [Option.toList] at hst
           rw [hst] at h7
@@ -120,8 +123,8 @@ theorem func_sim (ns : NumSem) (hns : NumOK ns) (ctx : Ctx) (params locals : Lis
             have hv := h7.get 0 (by simp)
             have hdl : 1 ≤ s1.declLen := by have := h2.decl; rw [hst] at this; simpa using this
             have hret := e4 rt rfl hdl
-            simp only [srcFinish, List.getLast?_singleton, tgtFinish, e3, hret, if_true]
-            exact congrArg (fun x => FRes.value (some x)) (by simpa using hv)
+            simp only [srcFinish, List.getLast?_singleton, tgtFinish, e3, hret, if_true, h8]
+            exact ⟨congrArg (fun x => FRes.value (some x) loc'.g) (by simpa using hv), hgB⟩
       | branch l stkB locB =>
         cases l with
         | succ l => trivial
@@ -130,12 +133,12 @@ theorem func_sim (ns : NumSem) (hns : NumOK ns) (ctx : Ctx) (params locals : Lis
           obtain ⟨h0, lab, σ', h1, h2, h3, h4⟩ := hsim
           rw [hlab0] at h1; injection h1 with h1; subst h1
           rw [h2]
-          exact hjump stkB locB σ' h3 h4
+          exact hjump stkB locB σ' h0 h3 h4
       | ret stkB locB =>
         rw [hres] at hsim
         obtain ⟨h0, lab, σ', h1, h2, h3, h4⟩ := hsim
         rw [hlabs0] at h1; injection h1 with h1; subst h1
         rw [h2]
-        exact hjump stkB locB σ' h3 h4
+        exact hjump stkB locB σ' h0 h3 h4
 
 end W2c2Verif.Sim
